@@ -75,7 +75,7 @@ class WebsocketSession(object):
         """Force the socket to disconnect."""
         raise _ForceDisconnect()
 
-    def write(self, data):
+    def write(self, data, closing=False):
         """Send raw data."""
         with self._lock:
             if self._sock is None:
@@ -99,11 +99,15 @@ class WebsocketSession(object):
                 raise errors.TransportFail(
                     'socket error; {}', error
                 )
+            if closing:
+                # A close frame was sent. Flag it while still holding the
+                # lock, so another thread can't write anything after it.
+                self.websocket.state.closing = True
 
     def send(self, opcode, data):
         """Send a WS Frame."""
         frame = Frame(opcode, payload=bytearray(data))
-        self.write(frame.to_bytes())
+        self.write(frame.to_bytes(), closing=frame.is_close)
         log.debug(' SRV <- CLI : %r', frame)
 
     def send_compressed(self, opcode, data):
